@@ -17,7 +17,9 @@ EXPLANATION = (
     "ct_eq(recomputed hash, parsed hash) where the Argon2 operands are the parsed t, m, p, salt and type. "
     "REHASH: needs_rehash returns Ok(false) only behind the equal edges of both cost comparisons and Ok(true) "
     "only behind a not-equal edge; both comparisons are between convert_costs(opslimit, memlimit) and the "
-    "parsed costs.")
+    "parsed costs. Also: the six values of the encoder's format! are in placeholder order (second = version 19); "
+    "crypto_pwhash_str hands Argon2 and the encoder the same converted costs by role; the parser has no cap on the "
+    "total string length below 512.")
 NOT_DECIDED = ("that libsodium accepts dryoc's strings and vice versa (byte-level base64/format interop), "
                "re-encoding equality for every valid string.")
 
@@ -252,6 +254,12 @@ def encoder(rep, prog, enc, par, roles):
         rep.ob("ENCODER", "pwhash_to_string uses `%s`" % cm.param_name(enc, p), p in back,
                "parameter `%s` %s the formatted string" % (cm.param_name(enc, p), "flows into" if p in back else "does NOT flow into"), loc=enc.loc())
     algp = [p for p in cm.params_of(enc) if "PasswordHashAlgorithm" in enc.locals[p]["t"]]
+    _roles_seen = encoder_param_roles(enc)
+    _prob = enc.__dict__.get("_c10_fmt_problem")
+    if _prob and not _roles_seen:
+        # the `format!("${}$v={}$m={},t={},p=1${}${}", ..)` idiom is there but its values are not in the order of its
+        # placeholders (had the idiom been replaced by another way of building the string, nothing is claimed)
+        rep.violation("ENCODER", "format arguments in placeholder order", _prob, loc=enc.loc())
     rep.ob("ENCODER", "encoder takes the algorithm", len(algp) == 1,
            "encoder parameter types: %s" % [enc.locals[p]["t"] for p in cm.params_of(enc)], loc=enc.loc())
     # the algorithm-dependent literal is selected by a branch on the algorithm parameter
@@ -354,6 +362,13 @@ def encoder(rep, prog, enc, par, roles):
             e_salt = cm.view_info(f, list(operand_locals(ec[0].args[ix_.get("salt", 3)]))[0])[0]
             e_hash = cm.view_info(f, list(operand_locals(ec[0].args[ix_.get("hash", 4)]))[0])[0]
             rep.ob("ENCODER", "crypto_pwhash_str encodes the salt and hash it used", (r_salt, r_out) == (e_salt, e_hash), "same buffers", loc=ec[0].loc())
+            # ... and the costs it used: the pass count handed to Argon2 and the one written after `t=` are both the
+            # t component of the cost conversion, the memory size and the `m=` value both its m component
+            for role_ in ("t", "m"):
+                ca_, _ = cm.conv_component(prog, call_arg_exprs(a2[0])[A2[role_]])
+                ce_, _ = cm.conv_component(prog, call_arg_exprs(ec[0])[ix_.get(role_, 1 if role_ == "t" else 2)])
+                rep.ob("ENCODER", "crypto_pwhash_str hashes with and encodes the converted %s cost" % role_, ca_ == role_ and ce_ == role_,
+                       "Argon2 %s operand is the conversion's %s component, the encoder's `%s=` operand its %s component" % (role_, ca_, role_, ce_), loc=ec[0].loc())
 
 
 def encoder_param_roles(enc):
@@ -376,6 +391,7 @@ def encoder_param_roles(enc):
                 y = call_arg_exprs(y.a)[0]
             inner.append(y)
         if evaluate(inner[1], {}) != 19:
+            enc.__dict__["_c10_fmt_problem"] = "the second of the six formatted values (after `$v=`) is %s, not the version constant 19" % deep_repr(inner[1])[:60]
             continue
         for role, y in zip(("alg", None, "m", "t", "salt", "hash"), inner):
             if role is None:
@@ -434,6 +450,16 @@ def parser(rep, prog, par, roles):
         rep.ob("PARSER", "Ok ⇒ version == 19", v19, "facts at the Ok exit: %s %s" % ([t for t in facts if fv in str(t)], sorted(eqk)), loc=par.loc(b))
         rep.ob("PARSER", "Ok ⇒ parallelism == 1", p1, "facts at the Ok exit: %s %s" % ([t for t in facts if fp in str(t)], sorted(eqk)), loc=par.loc(b))
     parser_ranges(rep, par, roles)
+    # the string as a whole: the longest string the object API writes (64-byte salt, 128-byte hash) has about 290
+    # characters; no guard on the total length may stand between any length up to 512 and an Ok exit
+    sp = [p_ for p_ in cm.params_of(par) if par.locals[p_]["t"].replace("'_ ", "") == "&str"]
+    if len(sp) == 1:
+        iv = cm.accepted_intervals(par, ("len", sp[0]))
+        cov = all(any((lo is None or lo <= n_) and (hi is None or n_ <= hi) for lo, hi in iv) for n_ in range(64, 513))
+        rep.ob("PARSER", "accepts strings of every length up to 512", cov,
+               "Ok exits are reachable for total string lengths %s" % (sorted(iv, key=str),), loc=par.loc())
+    else:
+        rep.violation("ANCHOR", "parser|string parameter", "cannot tell the string parameter of the parser (fail closed)", loc=par.loc())
     rep.floor("Ok exits of the parser", nok, 1)
 
 
